@@ -148,4 +148,11 @@ CHECKS["C38"] = dict(level="exploration", technique="TLC-enumerated decision tab
          "argument (729) x policy x caller errno, wrong argument counts and C-library error cases; the harness records status, "
          "bounds_status, c_error_number, the class of the returned value, errno after the call and _checkBounds; TLC judges the table.",
     note="Under Warning any offending argument's rank is accepted; -3 or -4 is accepted when both errno and a non-finite value occur.", ref="8/C38")
+CHECKS["C47"] = dict(level="model_checking", technique="TLC model checking of Registry.tla with crashes + fault enumeration (strace-injected SIGKILL at every system call on src/targets.lst) + trace validation with inferred internal steps",
+    text="The registry life cycle (read / report, merge, truncate, write, close, crash anywhere) is model-checked for 'a completed run either "
+         "reports the damaged registry or loses nothing registered before' and for accumulation (a mutant that drops the report is rejected "
+         "by TLC); real mfront runs are executed as histories over 4 inputs with SIGKILL injected by strace at the 1st-3rd openat / write / close "
+         "on src/targets.lst, the registry is re-parsed independently after every run, and TLC validates each history by finding internal "
+         "steps that explain every observation, with the invariants evaluated along the way.",
+    note="Descriptions of inputs come from solo runs. Library / source names with quotes or spaces are not generated.", ref="8/C47")
 NOT_APPLICABLE = {}
